@@ -182,11 +182,27 @@ func (s *Solver) Check() string {
 	s.send("(check-sat)")
 	s.in.Flush()
 	res := "unknown"
+	// Hard wall-clock limit: z3 4.8.12 does not always honour :timeout inside
+	// preprocessing/bit-blasting. A solver that has not answered after 3x the
+	// soft limit + 20 s is killed; the query (and everything after it on this
+	// worker) is then "unknown", i.e. inconclusive, never a pass.
+	hard := time.Duration(3*s.timeout)*time.Millisecond + 20*time.Second
+	killed := false
+	wd := time.AfterFunc(hard, func() {
+		killed = true
+		if s.cmd != nil && s.cmd.Process != nil {
+			s.cmd.Process.Kill()
+		}
+	})
+	defer wd.Stop()
 	for {
 		line, err := s.out.ReadString('\n')
 		if err != nil {
 			s.dead = true
 			s.lastErr = "solver died: " + err.Error()
+			if killed {
+				s.lastErr = fmt.Sprintf("solver killed after the hard limit of %s on one query", hard)
+			}
 			res = "unknown"
 			break
 		}
